@@ -184,3 +184,91 @@ func verifCompare(ctx context.Context, cs *Store, ref *verifRef, when string) {
 		sym.Assert(errors.Is(err, ErrCertNotFound) && len(cr) == n, when+":range-past-end")
 	}
 }
+
+// VerifC09_Subscribers: subscriptions follow the latest certificate and never
+// block the writer: after every operation of every sequence (subscribe, put a
+// successor, put a stale certificate, read, unsubscribe; two subscriber
+// slots) a live subscriber that has not read since the last admission finds
+// exactly the latest certificate waiting (nothing if none was admitted since
+// it read), whether or not it ever reads; Put never blocks and never panics
+// after an unsubscribe.
+func VerifC09_Subscribers() {
+	ctx := context.Background()
+	first := uint64(sym.Choice("first", 2))
+	cs, err := CreateStore(ctx, newVerifDS(), first, verifTableSeq(0))
+	sym.Assume(err == nil)
+	cs.powerTableFrequency = 2
+	type sub struct {
+		ch      <-chan *certs.FinalityCertificate
+		closer  func()
+		live    bool
+		pending *certs.FinalityCertificate // what must be waiting in the channel
+	}
+	var subs [2]sub
+	var latest *certs.FinalityCertificate
+	tables := []gpbft.PowerEntries{verifTableSeq(0)}
+	k := 0
+	steps := 4 + sym.Tier()
+	for st := 0; st < steps; st++ {
+		op := sym.Choice("op", 5)
+		i := 0
+		if op != 1 && op != 2 {
+			i = sym.Choice("subscriber", 2)
+		}
+		switch op {
+		case 0: // subscribe
+			if subs[i].live {
+				sym.Assume(false)
+			}
+			ch, closer := cs.Subscribe()
+			subs[i] = sub{ch: ch, closer: closer, live: true, pending: latest}
+			sym.Cover("subscribed")
+		case 1: // put the successor
+			c := verifCert(first+uint64(k), int64(10*k), 2, tables[k], verifTableSeq(k+1))
+			sym.Assert(cs.Put(ctx, c) == nil, "successor-admitted")
+			tables = append(tables, verifTableSeq(k+1))
+			k++
+			latest = c
+			for j := range subs {
+				if subs[j].live {
+					subs[j].pending = c
+				}
+			}
+			sym.Cover("put")
+		case 2: // stale put: no notification
+			if k == 0 {
+				sym.Assume(false)
+			}
+			sym.Assert(cs.Put(ctx, verifCert(first, 77, 1, tables[0], verifTableSeq(2))) == nil, "stale-put-is-noop-nil")
+		case 3: // the subscriber reads
+			if !subs[i].live || subs[i].pending == nil {
+				sym.Assume(false)
+			}
+			select {
+			case got := <-subs[i].ch:
+				sym.Assert(got != nil && verifCertEq(got, subs[i].pending), "subscriber-reads-the-latest-certificate")
+			default:
+				sym.Assert(false, "subscriber-finds-a-certificate-waiting")
+			}
+			subs[i].pending = nil
+			sym.Cover("read")
+		default: // unsubscribe
+			if !subs[i].live {
+				sym.Assume(false)
+			}
+			subs[i].closer()
+			subs[i].closer() // idempotent
+			subs[i].live = false
+			sym.Cover("unsubscribed")
+		}
+		for j := range subs {
+			if subs[j].live {
+				want := 0
+				if subs[j].pending != nil {
+					want = 1
+				}
+				sym.Assert(len(subs[j].ch) == want, "channel-holds-exactly-the-unread-latest-certificate")
+			}
+		}
+	}
+}
